@@ -957,7 +957,7 @@ static int ec_glob(char *loc, char *cmd, char *arg, char *txt)
 			xrow = i;
 			if (ex_exec(s))
 				break;
-			i = MIN(i, xrow);
+			i = MAX(0, MIN(i, xrow));
 		}
 		while (i < lbuf_len(xb) && !lbuf_globget(xb, i, xgdep))
 			i++;
